@@ -18,7 +18,7 @@ static char dkeys[NDK][8];
 
 static void init_dkeys(void) { int i; for (i = 0; i < NDK; i++) sprintf(dkeys[i], "x%02d", i); }
 
-static int g_heavy = 0;
+static int g_heavy = 0, g_fit = 0;
 static size_t pick_len(void) {
   uint32_t r = d_rn(100);
   if (getenv("CRASH_SMALL") != NULL) return 5 + d_rn(60);
@@ -50,6 +50,33 @@ static ldb_batch_t *make_batch(int b, char *desc, int maxops, int small) {
     else { len = small ? 5 + d_rn(200) : pick_len(); val = d_mkval(b * 8 + j, len); v = ldb_slice(val, len < 5 ? 5 : len); ldb_batch_put(wb, &k, &v); free(val);
            p += sprintf(desc + p, "%s%d:%d", j ? "," : "", kk, b * 8 + j); }
   }
+  return wb;
+}
+
+/* CRASH_BLOCKFIT: a batch (marker + one data key) sized so that its log record ends EXACTLY at the end of a 32 KiB log block
+   (after 0, 1 or 2 further full blocks). The current log offset is the size of the newest log file: the writer hands every
+   record to the kernel before the write is acknowledged. Returns NULL when no value length fits. */
+#include <dirent.h>
+#include <sys/stat.h>
+static ldb_batch_t *make_fit_batch(int b, char *desc, const char *dbdir) {
+  DIR *dh = opendir(dbdir); struct dirent *de; long best = -1; char path[1024]; struct stat st; long s, r, P, L = -1; int vl, kk; ldb_batch_t *wb; char kb[32]; ldb_slice_t k, v; char *val;
+  if (dh == NULL) return NULL;
+  while ((de = readdir(dh)) != NULL) { size_t n = strlen(de->d_name); if (n > 4 && strcmp(de->d_name + n - 4, ".log") == 0) { long num = atol(de->d_name); if (num > best) best = num; } }
+  closedir(dh);
+  if (best < 0) return NULL;
+  sprintf(path, "%s/%06ld.log", dbdir, best);
+  if (stat(path, &st) != 0) return NULL;
+  s = (long)(st.st_size % 32768); r = 32768 - s;
+  if (r < 7) r += 32768;                      /* the writer pads the block and starts in the next one */
+  P = (r >= 32768 ? r - 32768 : 0) + (r % 32768 == 0 ? 32768 : r % 32768) - 7;
+  if (r > 32768) P = 32768 - 7;                /* whole next block */
+  P += (long)d_rn(3) * 32761;                  /* further full blocks */
+  for (vl = 1; vl <= 3; vl++) { long c = P - 32 - vl; int need = c < 128 ? 1 : c < 16384 ? 2 : 3; if (c >= 5 && need == vl) { L = c; break; } }
+  if (L < 0) return NULL;
+  wb = ldb_batch_create();
+  sprintf(kb, "m%05d", b); k = ldb_string(kb); val = d_mkval(b * 8 + 7, 6); v = ldb_slice(val, 6); ldb_batch_put(wb, &k, &v); free(val);
+  kk = d_rn(NDK); k = ldb_string(dkeys[kk]); val = d_mkval(b * 8, (size_t)L); v = ldb_slice(val, (size_t)L); ldb_batch_put(wb, &k, &v); free(val);
+  sprintf(desc, "%d:%d", kk, b * 8);
   return wb;
 }
 
@@ -128,7 +155,9 @@ static int cmd_record(int argc, char **argv) {
   for (b = 1; b <= nb; b++) {
     ldb_writeopt_t wo = *ldb_writeopt_default; ldb_batch_t *wb; uint32_t r;
     wo.sync = d_rn(4) == 0;
-    wb = make_batch(b, desc, 4, 0);
+    wb = NULL;
+    if (getenv("CRASH_BLOCKFIT") != NULL && b % 2 == 0) { wb = make_fit_batch(b, desc, dbdir); if (wb != NULL) { wo.sync = 0; g_fit++; } }
+    if (wb == NULL) wb = make_batch(b, desc, 4, 0);
     sprintf(mark, "begin %d %d %s", b, wo.sync, desc); io_shim_mark(mark);
     rc = ldb_write(db, wb, &wo);
     note_fault();
@@ -180,6 +209,7 @@ static int cmd_record(int argc, char **argv) {
       if (g == 0) ldb_free(v.data);
     }
   }
+  if (getenv("CRASH_BLOCKFIT") != NULL) fprintf(stderr, "blockfit %d\n", g_fit);
   { sprintf(mark, "count %ld", io_shim_count()); io_shim_mark(mark); }
   if (faulting) { io_shim_clear(); io_shim_mark("cleared 0"); }
   if (endmode == 1) { ldb_close(db); io_shim_mark("closed 0"); }
